@@ -142,7 +142,9 @@ Vals(d, K, o, f) == UNION {ElemVals(d, e, f) : e \in {e \in Elems(d) : Host(e, K
 (* address different arrays or top-level fields are combined at the object *)
 (* enclosing them -- the parent document for top-level arrays -- where a   *)
 (* clause holds iff some element below satisfies it.  Disjunction and      *)
-(* boolean must/should/must-not are combined in the same way.  With K = {} *)
+(* boolean are combined in the same way; the must / should / must-not      *)
+(* groups of a boolean are a conjunction / a disjunction with a minimum /  *)
+(* a negated disjunction, each with its own common context.  With K = {} *)
 (* (flat mapping) the only object is the document: each clause is met by   *)
 (* some element.  match_all and a boolean without positive clause range    *)
 (* over parent documents.                                                  *)
@@ -170,14 +172,19 @@ Holds(q, d, K, o) ==
               Cardinality({i \in DOMAIN q.qs : Holds(q.qs[i], d, K, o)})
                 >= (IF q.min = 0 THEN 1 ELSE q.min)
          [] q.op = "bool" ->
-              LET ns == Cardinality({i \in DOMAIN q.should : Holds(q.should[i], d, K, o)}) IN
-              /\ \A i \in DOMAIN q.must : Holds(q.must[i], d, K, o)
-              /\ \A i \in DOMAIN q.mustnot : ~Holds(q.mustnot[i], d, K, o)
+              \* a boolean IS (must: a conjunction) and (should: a disjunction
+              \* with a minimum) and not (must-not: a disjunction) -- the three
+              \* groups keep their own meaning (their own common context)
+              \* inside the boolean, like any compound that is a clause of a
+              \* larger query
+              LET shouldQ == [op |-> "disj", qs |-> q.should, min |-> q.min] IN
+              /\ q.must # <<>> => Holds([op |-> "conj", qs |-> q.must], d, K, o)
+              /\ q.mustnot # <<>> => ~Holds([op |-> "disj", qs |-> q.mustnot, min |-> 0], d, K, o)
               \* the should minimum exists only with should clauses; without a
               \* must clause at least one should clause is needed anyway
               /\ IF q.should = <<>> THEN TRUE
-                 ELSE IF q.must = <<>> THEN ns >= (IF q.min = 0 THEN 1 ELSE q.min)
-                 ELSE ns >= q.min
+                 ELSE IF q.must = <<>> THEN Holds(shouldQ, d, K, o)
+                 ELSE q.min = 0 \/ Holds(shouldQ, d, K, o)
 
 Matches(q, d, K) == Holds(q, d, K, RootObj)
 
